@@ -6,7 +6,7 @@ from ..refmodel import RefModel
 
 PROP = "C18"
 BUDGET = {"quick": 320, "thorough": 6000}
-ALARM_S = 1800
+ALARM_S = 600
 RULE = ("catalogue models x generating parameters x noise-free or perturbed data x loss class (all five for the box and "
         "descent clauses; Square and Normal on noise-free data for the 'started at the truth' clause) x box bounds x start "
         "uniformly inside the box (or at the truth) x I-seam policy; the owner client scrambles the shared model's "
